@@ -4,6 +4,7 @@ import (
 	"bytes"
 	"fmt"
 	"net"
+	"net/netip"
 	"testing"
 	"time"
 
@@ -122,6 +123,8 @@ func runC08(p c08Plan, c *stats.Case) error {
 	defer b.Stop()
 	portA := nextPort()
 	var priorSeq uint64
+	var apA netip.AddrPort
+	var sentA0 int
 	if len(p.Prior) > 0 {
 		// the responder holds the asker's record from an earlier life in which it advertised other versions; after
 		// the restart the asker's record is newer and the responder learns it in the handshake
@@ -132,6 +135,8 @@ func runC08(p c08Plan, c *stats.Case) error {
 		_, perr := a0.P.VerifPing(b.Node())
 		priorSeq = a0.Node().Seq()
 		a0.Stop()
+		apA = a0.Conn.AddrPort()
+		sentA0 = hub.Sent(apA)
 		if perr == nil && !bytes.Equal(p.Prior, p.VA) {
 			c.Class("asker-restarted-with-other-version-set")
 		}
@@ -142,6 +147,13 @@ func runC08(p c08Plan, c *stats.Case) error {
 		return fmt.Errorf("harness: %v", err)
 	}
 	defer a.Stop()
+	if len(p.Prior) > 0 && hub.Sent(apA) != sentA0 {
+		// The restarted node has already answered a packet of the responder (a liveness check of its routing table
+		// under the old session keys): the responder then opened the new session itself, with the record it had. A
+		// stale record in that case is how the discovery protocol works, not what this history is about.
+		c.Class("discarded:responder-contacted-the-restarted-node-first")
+		return nil
+	}
 	if len(p.Prior) > 0 && a.Node().Seq() <= priorSeq {
 		c.Class("harness:restarted-record-not-newer")
 		return nil
@@ -248,6 +260,10 @@ func runC08(p c08Plan, c *stats.Case) error {
 			ch <- res{f, v, e}
 		}()
 		return ch
+	}
+	if len(p.Prior) > 0 && hub.Sent(apA) != sentA0 {
+		c.Class("discarded:responder-contacted-the-restarted-node-first") // see above; checked again right before the request
+		return nil
 	}
 	chans := []chan res{fetch(a)}
 	if p.SecondAsker {
